@@ -371,6 +371,33 @@ func (ex *Exec) call(in *ssa.Call, cc *ssa.CallCommon, r Term) {
 	if in != nil && pos == 0 {
 		pos = in.Pos()
 	}
+	if ex == ex.top && ex.fc != nil && len(ex.fc.CallAsserts) > 0 {
+		name := calleeName(cc)
+		seenA := map[string]bool{}
+		for _, ca := range ex.fc.CallAsserts {
+			if !strings.Contains(name, ca.Callee) {
+				continue
+			}
+			key := "callassert:" + ca.Callee
+			if ex.count[key] == ca.Ordinal {
+				env := ex.baseEnv(ex.cur)
+				ex.bindDominating(env, in)
+				t, err := env.Goal(ca.C.E)
+				if err != nil {
+					unsup("call %d %s assert: %v", ca.Ordinal, ca.Callee, err)
+				}
+				ex.addObl("assert", ca.C.Label, r, t, pos, ca.C.Text, false)
+				if at, err := env.Bool(ca.C.E); err == nil {
+					ex.c.assume(imp(r, at))
+				}
+				ex.assertSeen[fmt.Sprintf("%d %s", ca.Ordinal, ca.Callee)] = true
+			}
+			seenA[ca.Callee] = true
+		}
+		for k := range seenA {
+			ex.count["callassert:"+k]++
+		}
+	}
 
 	if b, ok := cc.Value.(*ssa.Builtin); ok {
 		setRes(ex.builtin(b, cc, r, resType()))
@@ -447,7 +474,7 @@ func (ex *Exec) inline(fn *ssa.Function, args []Val, bindings []ssa.Value, r Ter
 	ex.top.inlineN++
 	sub := &Exec{v: ex.v, c: ex.c, fn: fn, fname: fn.String(), prefix: fmt.Sprintf("%si%d_", ex.prefix, ex.top.inlineN),
 		vals: map[ssa.Value]Val{}, obls: ex.obls, depth: ex.depth + 1, stack: append(append([]string{}, ex.stack...), fn.String()),
-		top: ex.top, decAtHeader: map[*ssa.BasicBlock]Val{}, headerEnv: map[*ssa.BasicBlock]*Env{}, entryEnv: nil}
+		top: ex.top, decAtHeader: map[*ssa.BasicBlock]Val{}, headerEnv: map[*ssa.BasicBlock]*Env{}, autoRange: map[*ssa.BasicBlock]*rangeInv{}, entryEnv: nil}
 	sub.fc = ex.contractFor(fn) // may carry loop invariants for an inlined function
 	for i, p := range fn.Params {
 		a := args[i]
@@ -503,6 +530,17 @@ func (ex *Exec) applyContract(fc *FuncContract, fn *ssa.Function, cc *ssa.CallCo
 		pre.vars[l.Name] = v
 	}
 	for _, rq := range fc.Requires {
+		if tag := fc.Options["assume-pre"]; tag != "" {
+			// the precondition is an assumption about the environment (named
+			// in the trusted base), not an obligation of the caller
+			at, err := pre.Bool(rq.E)
+			if err != nil {
+				unsup("contract %s requires: %v", calleeDisp, err)
+			}
+			c.assume(imp(r, at))
+			c.trusted[tag+": precondition of "+calleeDisp+" assumed at its call sites: "+rq.Text] = true
+			continue
+		}
 		t, err := pre.Goal(rq.E)
 		if err != nil {
 			unsup("contract %s requires: %v", calleeDisp, err)
@@ -801,8 +839,11 @@ func (ex *Exec) lvalueCells(env *Env, m string, who string) []cell {
 	if star {
 		// all cells of the struct that txt points to (or is, when txt is an lvalue of struct type)
 		v, err := env.Value(e)
-		if err == nil && v.K == KRef {
+		if err == nil && v.K == KRef && v.T != "unavailable" {
 			return c.cells(v.T, derefType(v.Typ))
+		}
+		if err == nil && v.K == KLit {
+			unsup("contract %s modifies %s: not an address", who, m)
 		}
 	}
 	var pv Val
@@ -817,6 +858,9 @@ func (ex *Exec) lvalueCells(env *Env, m string, who string) []cell {
 		}()
 		pv = env.addrOf(e)
 	}()
+	if pv.K != KRef || pv.T == "" || pv.T == "unavailable" {
+		unsup("contract %s modifies %s: not an address", who, m)
+	}
 	return c.cells(pv.T, derefType(pv.Typ))
 }
 
